@@ -13,7 +13,8 @@ LEVEL = 'exploration'
 RULE = ('for operands p, q from a finite set (atoms and one-operator formulas) and all bounds from I x I: both sides of each law are monitored by the '
         'SAME real monitor kind on all traces (discrete: all traces up to length n; dense: grid step signals, online kinds all-at-once and one sample '
         'at a time) and must return identical signals (dense: identical functions on the grid of the domain); the laws are first checked on the '
-        'reference over the same space (a failure there is reported as a broken check, not as a finding); non-trivial = the two sides are not '
+        'reference over the same space (a failure there is reported as a broken check, not as a finding); recovery layer: past laws whose operand divides by y, both sides fed '
+        'the same history samples + one sample that update() rejects (y = 0) + reset() + all traces up to length 3: after reset() the sides must agree again; non-trivial = the two sides are not '
         'constant +-inf on the case')
 ASSUMPTIONS = ['laws: not F[a,b] p = G[a,b] not p; not O[a,b] p = H[a,b] not p (bounded, unbounded); p -> q = not p or q; F[a,b]F[c,d] p = F[a+c,b+d] p (also once); '
                'discrete: p S q = q or (p and sY(p S q)), p U q = q or (p and sX(p U q))',
@@ -69,11 +70,83 @@ def wide_laws():
     return out
 
 
+def recover_laws():
+    """past laws of the discrete online monitor whose operand q divides by y: a sample with y = 0 is rejected by update()"""
+    px, X, Y = F.PX, F.X, F.Y
+    qd = ('pred', '>=', ('/', F.C1, Y), F.C1)
+    out = []
+    for p in (px, ('once', (0, 1), px), X):
+        s = ('since', None, p, qd)
+        out.append(('since-expansion', s, ('or', qd, ('and', p, ('s_prev', s)))))
+        out.append(('implies', ('implies', p, qd), ('or', ('not', p), qd)))
+        out.append(('implies', ('implies', qd, p), ('or', ('not', qd), p)))
+    for a, b in ((0, 1), (1, 2)):
+        out.append(('not-once', ('not', ('once', (a, b), qd)), ('historically', (a, b), ('not', qd))))
+        out.append(('once-once', ('once', (a, b), ('once', (0, 1), qd)), ('once', (a, b + 1), qd)))
+        out.append(('not-once', ('not', ('once', (a, b), ('and', px, qd))), ('historically', (a, b), ('not', ('and', px, qd)))))
+    return out
+
+
+def run_recover(shard, tier, res, mod):
+    """both sides of a law get the same history: some samples, one sample that update() rejects (division by zero), reset(), and then a
+    trace - after reset() the two monitors must again return identical values (and the values of the reference)"""
+    name, lhs, rhs = recover_laws()[shard['recover']]
+    vs = ['x', 'y']
+    tl, tr = 'out = ' + F.pr(lhs), 'out = ' + F.pr(rhs)
+    good = [(x, y) for x in F.V2 for y in (0.5, 2.0)]
+    pres = [()] + [(e,) for e in good] + [(a, b) for a in good[::3] for b in good]
+    bad = (2.0, 0.0)
+    posts = list(F.traces(3 if tier == 'quick' else 4, good, 1))
+    posts = [tuple(e[0] for e in t) for t in posts]
+    res.formulas += 1
+    for pre in pres:
+        for post in posts:
+            res.evaluations += 1
+            outs = []
+            rejected = True
+            for text in (tl, tr):
+                sp = impl.build('dt_on', text, vs)
+                for i, e in enumerate(pre):
+                    impl.outcome(impl.dt_update, sp, i, dict(zip(vs, e)))
+                k, v = impl.outcome(impl.dt_update, sp, len(pre), dict(zip(vs, bad)))
+                rejected = rejected and k != 'ok'
+                kr, vr = impl.outcome(sp.reset)
+                vals = [impl.outcome(impl.dt_update, sp, i, dict(zip(vs, e))) for i, e in enumerate(post)]
+                outs.append([kr] + vals)
+            case = {'law': name, 'kind': 'dt_on', 'recover': shard['recover'], 'lhs': tl, 'rhs': tr, 'vars': vs, 'pastify': False,
+                    'pre': [list(e) for e in pre], 'rejected': list(bad), 'data': [list(e) for e in post]}
+            w = F.trace_dict(post, vs)
+            ref = refsem.ev(lhs, w, len(post))
+            v1 = [o[1] if o[0] == 'ok' else o for o in outs[0][1:]]
+            v2 = [o[1] if o[0] == 'ok' else o for o in outs[1][1:]]
+            msg = None
+            if outs[0][0] != 'ok' or outs[1][0] != 'ok':
+                msg = 'reset() after a rejected update() raised'
+            elif not all(o[0] == 'ok' for o in outs[0][1:] + outs[1][1:]):
+                msg = '%s: after %d samples, a rejected sample and reset(), update() raised: %r vs %r' % (name, len(pre), v1, v2)
+            elif not refsem.same_list(v1, v2):
+                msg = '%s: after %d samples, a rejected sample and reset() the two sides differ: %r vs %r' % (name, len(pre), v1, v2)
+            elif not refsem.same_list(v1, ref):
+                msg = '%s: after %d samples, a rejected sample and reset() both sides return %r, the reference is %r' % (name, len(pre), v1, ref)
+            if msg:
+                res.violation(mod, case, msg)
+                res.outcomes['sides differ'] += 1
+            else:
+                res.outcomes['equal'] += 1
+                if rejected:
+                    res.flags['after_rejected_and_reset'] += 1
+                if not all(x in (refsem.INF, -refsem.INF) for x in ref):
+                    res.nontrivial += 1
+            res.digest(name, tl, pre, post, msg)
+    res.sample({'law': name, 'lhs': tl, 'rhs': tr, 'history': 'samples, a sample with y = 0 (rejected), reset(), trace'}, 1)
+
+
 def shards(tier):
     ls = laws(tier)
     per = 6 if tier == 'quick' else 3
     out = [{'lo': i, 'hi': min(len(ls), i + per)} for i in range(0, len(ls), per)]
     out += [{'lo': i, 'hi': i + 1, 'wide': True} for i in range(len(wide_laws()))]
+    out += [{'recover': i} for i in range(len(recover_laws()))]
     return out
 
 
@@ -84,6 +157,8 @@ def dense_ok(f):
 def run_shard(shard, tier, res):
     mod = sys.modules[__name__]
     quick = tier == 'quick'
+    if 'recover' in shard:
+        return run_recover(shard, tier, res, mod)
     ls = (wide_laws() if shard.get('wide') else laws(tier))[shard['lo']:shard['hi']]
     sig_cache = {}
     for name, lhs, rhs, where in ls:
@@ -198,6 +273,16 @@ def run_shard(shard, tier, res):
 def replay(case):
     vs = case['vars']
     kind = case['kind']
+    if 'recover' in case:
+        outs = []
+        for text in (case['lhs'], case['rhs']):
+            sp = impl.build('dt_on', text, vs)
+            for i, e in enumerate(case['pre']):
+                impl.outcome(impl.dt_update, sp, i, dict(zip(vs, e)))
+            impl.outcome(impl.dt_update, sp, len(case['pre']), dict(zip(vs, case['rejected'])))
+            impl.outcome(sp.reset)
+            outs.append([impl.outcome(impl.dt_update, sp, i, dict(zip(vs, e))) for i, e in enumerate(case['data'])])
+        return [] if outs[0] == outs[1] else ['%s: sides differ after a rejected sample and reset(): %r vs %r' % (case['law'], outs[0], outs[1])]
     if kind.startswith('dt'):
         sl = impl.build(kind, case['lhs'], vs, pastify=case['pastify'])
         sr = impl.build(kind, case['rhs'], vs, pastify=case['pastify'])
@@ -226,4 +311,6 @@ def finalize(agg, outcomes, flags, tier):
         raise Broken('a law fails on the reference semantics: %d cases' % flags['reference_law_failure'])
     if agg['nontrivial'] < 1000:
         raise Broken('vacuous: only %d non-trivial cases' % agg['nontrivial'])
-    return {'law_instances': agg['formulas']}
+    if flags.get('after_rejected_and_reset', 0) < 100:
+        raise Broken('vacuous: only %d recovery cases in which both monitors rejected the sample' % flags.get('after_rejected_and_reset', 0))
+    return {'law_instances': agg['formulas'], 'recovery_cases': flags.get('after_rejected_and_reset', 0)}
